@@ -68,6 +68,14 @@ def e2_scenarios(tier):
     vis = SC.TOKENS + ["lock-try", "txn-begin"]
     L = [(SC.scn("always-2-dependents-j2", w, ["redo --no-log -j2 top"], visible=vis), 1 if q else 2),
          (SC.scn("always-2-dependents-rebuild-j2", w, ["redo --no-log -j2 top"], setup=[["ifchange", ["top"]]], visible=vis), 1 if q else 2)]
+    # two overlapping top-level runs: each run that needs the always-target builds it exactly once -- also when the run that
+    # started later gets there first, and also when another run executes a redo-always of its own in between
+    w2 = World("always-two-runs", {"s": ["0", "1"]},
+               {"top.do": [S(deps=["d1", "d2"], split=True)], "d1.do": [S(deps=["al"])], "d2.do": [S(deps=["al"], out="file")],
+                "al.do": [S(kind="always", deps=["s"])], "other.do": [S(deps=["al"])], "a2.do": [S(kind="always", deps=["s"], out="file")]},
+               ["top", "d1", "d2", "al", "other", "a2"], ["top"])
+    L.append((SC.scn("always-two-runs-same-target", w2, ["redo-ifchange top", "redo-ifchange other"], visible=vis, per_run=True), 1 if q else 2))
+    L.append((SC.scn("always-two-runs-other-always-target", w2, ["redo-ifchange top", "redo-ifchange a2"], visible=vis, per_run=True, exactly=True), 1 if q else 2))
     if not q:
         L.append((SC.scn("always-3-dependents-j3", w3, ["redo --no-log -j3 top"], visible=vis), 2))
         L.append((SC.scn("always-3-dependents-rebuild-j2", w3, ["redo --no-log -j2 top"], setup=[["ifchange", ["top"]]], visible=vis), 2))
@@ -79,7 +87,25 @@ def e2_oracle(scn, res):
         return []
     out = []
     ran = [l.split(" ")[1] for l in res["trace"] if l.startswith("B ")]
-    if ran.count("al") != 1:
+    if scn.get("per_run"):
+        # per run id: a run that executed a dependent of the always-target executed the always-target exactly once
+        from collections import Counter
+        per = Counter(tuple(l.split(" ")[1:3]) for l in res["trace"] if l.startswith("B "))
+        runs = {r for (_t, r) in per}
+        seq = [l.split(" ")[2] for l in res["trace"] if l.startswith("B al ")]   # runs that executed al, in order
+        for r in sorted(runs):
+            needs = any(per.get((d, r)) for d in ("d1", "d2", "other"))
+            n = per.get(("al", r), 0)
+            # exactly once -- except that a run which finds that a FOREIGN run rebuilt the target after it did builds it again
+            # (it cannot know what the other run built it from); two builds by one run with no foreign build in between are one too many
+            idx = [i for i, x in enumerate(seq) if x == r]
+            unprovoked = [j for a, j in zip(idx, idx[1:]) if j == a + 1]
+            # (when both runs build the SAME always-target, a second build by the earlier run can also be provoked by the later
+            # run having been the first to stamp one of its sources -- run ids order "changed after" across overlapping runs
+            # only conservatively; that interplay is outside this property's quantifier, so only "at least once" is judged there)
+            if needs and (n < 1 or (unprovoked and scn.get("exactly"))):
+                out.append(({"kind": "always-target-not-exactly-once", "scenario": scn["name"], "count": n}, {"trace": res["trace"], "run": r}))
+    elif ran.count("al") != 1:
         out.append(({"kind": "always-target-not-exactly-once", "scenario": scn["name"], "count": ran.count("al")}, {"ran": ran}))
     if any(rc != 0 for rc in res["roots"].values()):
         out.append(({"kind": "build-failed", "scenario": scn["name"]}, {"roots": res["roots"]}))
